@@ -11,10 +11,11 @@ import CircuitModel.DriverRP
 import CircuitModel.DriverCircuit
 import CircuitModel.DriverOpener
 import CircuitModel.DriverCloser
+import CircuitModel.DriverMerge
 open CM
 
 def suites : List (String × (List (String × String) → List (String × String) → List String)) :=
-  [("rc", suiteRC), ("tc", suiteTC), ("rp", suiteRP), ("sd", suiteSD), ("circuit", suiteCircuit), ("opener", suiteOpener), ("closer", suiteCloser)]
+  [("rc", suiteRC), ("tc", suiteTC), ("rp", suiteRP), ("sd", suiteSD), ("circuit", suiteCircuit), ("opener", suiteOpener), ("closer", suiteCloser), ("merge", suiteMerge)]
 
 partial def readAll (h : IO.FS.Stream) (acc : Array String) : IO (Array String) := do
   let line ← h.getLine
